@@ -652,3 +652,37 @@ def blocks_are_partitioned_by_their_xs_id(n: int, i1: int, i2: int, i3: int, med
     for x in groups:
         assert len(groups[x]) > 0 and all(c.xsID == x for c in groups[x]), "a group holds only blocks of its id"
         assert isinstance(groups[x], xsgm.MedianBlockCollection if median else xsgm.AverageBlockCollection)
+
+
+# ------------------------------------------------------------------------------------------ median member
+MedianBlockCollection = repo("armi.physics.neutronics.crossSectionGroupManager:MedianBlockCollection")
+
+
+class NamedBlk(Blk):
+    """block stand-in with a name (Block.getName: unique within a core)"""
+
+    def getName(self):
+        return self.name
+
+
+@lemma(gen=GEN5)
+def median_member_is_an_eligible_member_holding_the_median_weighted_burnup(n: int, v1: float, v2: float, v3: float, b1: float, b2: float,
+                                                                          b3: float, e1: bool, e2: bool, e3: bool):
+    """MedianBlockCollection._getMedianBlock: 1..3 members with distinct names (enumerated), any non-empty subset
+    eligible; volumes (= weights, no weighting parameter) and burnups symbolic"""
+    n = choose(n, 1, 3)
+    vs, bs, es = [v1, v2, v3][:n], [b1, b2, b3][:n], [e1, e2, e3][:n]
+    assume(all(v > 0 for v in vs) and all(b >= 0 for b in bs) and any(es))
+    bc = MedianBlockCollection(NUCS)
+    bc._validRepresentativeBlockTypes = [FUEL]
+    names = ["B0003", "B0001", "B0002"]
+    for i in range(n):
+        bc.append(new(NamedBlk, vol=vs[i], eligible=es[i], name=names[i], p=new(Params, percentBu=bs[i])))
+    med = bc._getMedianBlock()
+    el = [i for i in range(n) if es[i]]
+    assert sum(1 for i in el if same(bc[i], med)) == 1, "the representative is an actual eligible member"
+    k = bs[[i for i in el if same(bc[i], med)][0]] * vs[[i for i in el if same(bc[i], med)][0]]
+    below = sum(1 for i in el if bs[i] * vs[i] < k)
+    above = sum(1 for i in el if bs[i] * vs[i] > k)
+    m = len(el)
+    assert 2 * below <= m and 2 * above <= m, "it holds a median of the weighted burnups: at most half the members lie strictly below, at most half above"
